@@ -14,7 +14,7 @@ Lookups (`scope.LookupType` …) read `Module.Types/Constants/Services/Includes`
 `link` never changes (`m.Types[name] = typ.Link(m)` stores the same object back), so they
 are read from the gathered program. Core-only.
 -/
-import ThriftVerif.Compile.Gather
+import ThriftVerif.Compile.Spec
 
 namespace ThriftVerif.Compile
 
@@ -24,45 +24,6 @@ inductive Res (α : Type) where
   | err
   | fuel
   deriving Repr, Inhabited
-
-/-- A linked (or, for `uref`, still unlinked) `TypeSpec` value. `named m n` is the
-definition object `Module[m].Types[n]` (a `*TypedefSpec`, `*EnumSpec` or `*StructSpec`);
-the other constructors are the anonymous spec objects, identified by their occurrence. -/
-inductive LType where
-  | base (occ : Nat) (b : Base)
-  | list (occ : Nat) (e : LType)
-  | set (occ : Nat) (e : LType)
-  | map (occ : Nat) (k v : LType)
-  | named (m : Nat) (n : Name)
-  | uref (name : Name)                -- typeSpecReference
-  deriving DecidableEq, Repr, Inhabited
-
-/-- an unlinked type as written -/
-def TExpr.raw : TExpr → LType
-  | .base o b => .base o b
-  | .list o e => .list o e.raw
-  | .set o e => .set o e.raw
-  | .map o k v => .map o k.raw v.raw
-  | .ref n => .uref n
-
-/-- Go pointer identity of a `TypeSpec` interface value (what `t == c.Target.Type` compares) -/
-def LType.ident : LType → Option (Sum (Nat × Name) Nat)
-  | .base o _ => some (.inr o)
-  | .list o _ => some (.inr o)
-  | .set o _ => some (.inr o)
-  | .map o _ _ => some (.inr o)
-  | .named m n => some (.inl (m, n))
-  | .uref _ => none
-
-def sameType (a b : LType) : Bool := a.ident.isSome && decide (a.ident = b.ident)
-
-/-! ### lookups in the gathered program -/
-
-def modAt (p : GProg) (m : Nat) : Mod := p.getD m Mod.empty
-def lookupType (p : GProg) (m : Nat) (n : Name) : Option TDef := alookup n (modAt p m).types
-def lookupConst (p : GProg) (m : Nat) (n : Name) : Option GConst := alookup n (modAt p m).consts
-def lookupService (p : GProg) (m : Nat) (n : Name) : Option GService := alookup n (modAt p m).services
-def lookupInclude (p : GProg) (m : Nat) (n : Name) : Option Nat := alookup n (modAt p m).includes
 
 /-! ### state -/
 
@@ -100,88 +61,7 @@ def rootIn (p : GProg) (σ : St) : LType → Option LType
     | _ => some (.named m n)
   | t => some t
 
-/-- what a root type is, as far as casting constants is concerned -/
-inductive RootKind where
-  | bool | int (bits : Nat) | double | string | binary
-  | enum (m : Nat) (n : Name) (items : List (Name × Int))
-  | strct (m : Nat) (n : Name) (fields : List GField)
-  | list (e : LType) | set (e : LType) | map (k v : LType)
-  | other
-  deriving Repr
-
-def rootKind (p : GProg) : Option LType → RootKind
-  | some (.base _ .bool) => .bool
-  | some (.base _ .i8) => .int 8
-  | some (.base _ .i16) => .int 16
-  | some (.base _ .i32) => .int 32
-  | some (.base _ .i64) => .int 64
-  | some (.base _ .double) => .double
-  | some (.base _ .string) => .string
-  | some (.base _ .binary) => .binary
-  | some (.list _ e) => .list e
-  | some (.set _ e) => .set e
-  | some (.map _ k v) => .map k v
-  | some (.named m n) =>
-    match lookupType p m n with
-    | some (.enum items) => .enum m n items
-    | some (.struct _ fields) => .strct m n fields
-    | _ => .other
-  | _ => .other
-
-/-- first enum item with the given value (`for _, item := range spec.Items`) -/
-def findItemByValue (v : Int) : List (Name × Int) → Option (Name × Int)
-  | [] => none
-  | (n, x) :: rest => if x = v then some (n, x) else findItemByValue v rest
-
-/-- `ConstantInt.Link`: no range checks (`TODO bounds checks?`); the enum lookup compares
-with `int32(c)`. -/
-def castInt (k : RootKind) (n : Int) : Option CV :=
-  match k with
-  | .int _ => some (.int n)
-  | .double => some (.dbl (doubleOfInt n))
-  | .bool => if n = 0 then some (.bool false) else if n = 1 then some (.bool true) else none
-  | .enum m en items =>
-    match findItemByValue (wrap32 n) items with
-    | some (item, v) => some (.eref m en item v)
-    | none => none
-  | _ => none
-
-/-- `buildConstantStruct`: all keys must be string literals; a later duplicate key wins. -/
-def buildStruct : List (CV × CV) → List (Name × CV) → Option (List (Name × CV))
-  | [], acc => some acc
-  | (.str s, v) :: rest, acc => buildStruct rest (aset s v acc)
-  | _ :: _, _ => none
-
 def St.sdoneOf (σ : St) (k : Nat × Name) : Nat := (alookup k σ.sdone).getD 0
-
-/-- fuel-free type resolution, used to read back what an earlier `Link` stored
-(`FieldSpec.Type`, `Constant.Type`, `TypedefSpec.Target` after linking). `resolveNameF`
-is `typeSpecReference.Link`'s lookup: local name first, else split at the first dot. -/
-def resolveNameF (p : GProg) : Nat → Nat → Name → Option (Nat × Name)
-  | 0, _, _ => none
-  | f + 1, m, n =>
-    match lookupType p m n with
-    | some _ => some (m, n)
-    | none =>
-      match splitInclude n with
-      | none => none
-      | some (mn, inm) =>
-        match lookupInclude p m mn with
-        | none => none
-        | some m' => resolveNameF p f m' inm
-
-def resolveType (p : GProg) (m : Nat) (n : Name) : Option (Nat × Name) :=
-  resolveNameF p (n.length + 1) m n
-
-def resolveExpr (p : GProg) (m : Nat) : TExpr → Option LType
-  | .base o b => some (.base o b)
-  | .list o e => (resolveExpr p m e).map (.list o)
-  | .set o e => (resolveExpr p m e).map (.set o)
-  | .map o k v =>
-    match resolveExpr p m k, resolveExpr p m v with
-    | some k', some v' => some (.map o k' v')
-    | _, _ => none
-  | .ref n => (resolveType p m n).map (fun k => .named k.1 k.2)
 
 /-- the type object currently stored in field `j` of struct `(sm, sn)` -/
 def fieldTypeIn (p : GProg) (σ : St) (sm : Nat) (sn : Name) (j : Nat) (f : GField) : LType :=
